@@ -20,6 +20,14 @@ import (
 // Size octets which the relay holds (zero stream window, not yet processed by the sender),
 // the receiver then lowers SETTINGS_MAX_FRAME_SIZE to 16 384 and, once that has been
 // acknowledged, opens the window: no frame above 16 384 octets may arrive any more.
+//
+// Kind "max-frame-headers": as max-frame, but what waits behind the held DATA is a header
+// block (trailers) of Size octets, queued as one frame while 65 536 was in force.
+//
+// Kind "ack-overtakes" (the client receives): ten DATA frames of 60 000 octets are on
+// their way through the relay to a client that is slow to take the first one; the client
+// lowers SETTINGS_MAX_FRAME_SIZE to 16 384, the server acknowledges. No frame above 16 384
+// octets may reach the client after that acknowledgement.
 type FitCase struct {
 	Kind    string `json:"kind"`
 	Reverse bool   `json:"reverse,omitempty"`
@@ -38,7 +46,7 @@ func runFitOnce(c FitCase, bound time.Duration) (v kit.Verdict, slow bool) {
 		S, R = s.Server, s.Client
 	}
 	s.Client.WritePreface()
-	if c.Kind == "max-frame" {
+	if c.Kind != "window" {
 		R.WriteSettings(h2kit.Setting{ID: 5, Val: 65536})
 	} else {
 		R.WriteSettings()
@@ -58,8 +66,11 @@ func runFitOnce(c FitCase, bound time.Duration) (v kit.Verdict, slow bool) {
 	if c.Reverse {
 		S.WriteHeaders(h2kit.HeadersSpec{Stream: 1, Pad: -1, Fields: []h2kit.Field{{N: ":status", V: "200"}}})
 	}
+	if c.Kind == "ack-overtakes" {
+		return runAckOvertakes(c, s, bound)
+	}
 	window := c.Window
-	if c.Kind == "max-frame" {
+	if c.Kind == "max-frame" || c.Kind == "max-frame-headers" {
 		window = 0
 	}
 	// the receiver's new window; the sender has it on its way but has not processed it
@@ -67,7 +78,13 @@ func runFitOnce(c FitCase, bound time.Duration) (v kit.Verdict, slow bool) {
 	if !S.Wait(bound, func(r *h2kit.Rec) bool { return len(r.Settings) >= 2 || r.Done }) {
 		return kit.Failf("C09/session/receiver-to-sender/barrier-not-forwarded", "the receiver's SETTINGS frame did not reach the sender within %v", bound), true
 	}
-	S.WriteData(1, kit.Bytes(9, c.Size), -1, true)
+	if c.Kind == "max-frame-headers" {
+		S.SetMaxFragment(65000)
+		S.WriteData(1, kit.Bytes(9, 1000), -1, false)
+		S.WriteHeaders(h2kit.HeadersSpec{Stream: 1, Pad: -1, EndStream: true, Fields: []h2kit.Field{{N: "x-trailer", V: string(kit.Bytes(5, c.Size)), S: true}}})
+	} else {
+		S.WriteData(1, kit.Bytes(9, c.Size), -1, true)
+	}
 	S.WritePing(false, h2kit.MarkerPing(1))
 	if !R.Wait(bound, func(r *h2kit.Rec) bool { return r.HasMarker(1) || r.Done }) {
 		return kit.Failf("C09/session/sender-to-receiver/barrier-not-forwarded", "the sender's barrier PING did not reach the receiver within %v", bound), true
@@ -108,7 +125,7 @@ func runFitOnce(c FitCase, bound time.Duration) (v kit.Verdict, slow bool) {
 			got = now
 		}
 		report()
-	case "max-frame":
+	case "max-frame", "max-frame-headers":
 		R.WriteSettings(h2kit.Setting{ID: 5, Val: 16384})
 		if !S.Wait(bound, func(r *h2kit.Rec) bool { return len(r.Settings) >= 3 || r.Done }) {
 			return kit.Failf("C09/session/receiver-to-sender/barrier-not-forwarded", "the receiver's SETTINGS frame did not reach the sender within %v", bound), true
@@ -121,6 +138,24 @@ func runFitOnce(c FitCase, bound time.Duration) (v kit.Verdict, slow bool) {
 		}
 		R.SetAdvertisedMaxFrame(16384) // acknowledged: from here on the receiver enforces it
 		R.WriteWindowUpdate(1, 1<<20)
+		if c.Kind == "max-frame-headers" {
+			if !R.Wait(bound, func(r *h2kit.Rec) bool {
+				evs := r.Streams[1]
+				return (len(evs) > 0 && evs[len(evs)-1].Kind == "H" && evs[len(evs)-1].End) || r.Done
+			}) {
+				v.Addf("C09/stranding/max-frame-size-lowered-while-a-header-block-is-held/data-held-despite-credit", "the trailers held by the relay did not arrive within %v after the window was opened", bound)
+				slow = true
+			}
+			R.With(func(r *h2kit.Rec) {
+				for _, vi := range r.Violations {
+					if vi.Kind == "frame-size" {
+						v.Addf("C09/frame-size/max-frame-size-lowered-while-a-header-block-is-held/frame-size", "the receiver lowered SETTINGS_MAX_FRAME_SIZE from 65 536 to 16 384, the acknowledgement arrived, then it opened the window for the DATA in front of the trailers: %s", vi.Detail)
+						break
+					}
+				}
+			})
+			break
+		}
 		if !R.Wait(bound, func(r *h2kit.Rec) bool { return r.DataBytes[1] >= c.Size || r.Done }) {
 			v.Addf("C09/stranding/max-frame-size-lowered-while-data-is-held/data-held-despite-credit", "%d octets held by the relay did not arrive within %v after the window was opened", c.Size, bound)
 			slow = true
@@ -133,6 +168,59 @@ func runFitOnce(c FitCase, bound time.Duration) (v kit.Verdict, slow bool) {
 			}
 		})
 	}
+	return v, slow
+}
+
+func runAckOvertakes(c FitCase, s *h2kit.Session, bound time.Duration) (v kit.Verdict, slow bool) {
+	cl, sv := s.Client, s.Server
+	// (the server has processed the client's 65 536; the client now opens its windows wide)
+	cl.WriteSettings(h2kit.Setting{ID: 4, Val: 1 << 30})
+	cl.WriteWindowUpdate(0, 1<<30)
+	if !sv.Wait(bound, func(r *h2kit.Rec) bool { return len(r.Settings) >= 2 || r.Done }) {
+		return kit.Failf("C09/session/receiver-to-sender/barrier-not-forwarded", "the client's SETTINGS frame did not reach the server within %v", bound), true
+	}
+	sv.AckSettings()
+	if !cl.Wait(bound, func(r *h2kit.Rec) bool { return r.Acks >= 2 || r.Done }) {
+		return kit.Failf("C09/session/sender-to-receiver/barrier-not-forwarded", "the server's acknowledgement did not reach the client within %v", bound), true
+	}
+	s.Duplex.StallRelayWrites() // the client is slow to take what comes next
+	sent := 0
+	for i := 0; i < 10; i++ {
+		need := int64(sent + 60000)
+		if !sv.Wait(bound, func(r *h2kit.Rec) bool { return r.Done || 65535+int64(r.WU[0]) >= need }) {
+			break // (the relay has stopped reading: enough is under way)
+		}
+		sv.WriteData(1, kit.Bytes(uint64(i), 60000), -1, false)
+		sent += 60000
+	}
+	kit.Eventually(bound, func() bool { return s.Duplex.StalledWrites() >= 1 })
+	cl.LowerMaxFrameOnNextAck(16384)
+	cl.WriteSettings(h2kit.Setting{ID: 5, Val: 16384})
+	if !sv.Wait(bound, func(r *h2kit.Rec) bool { return len(r.Settings) >= 3 || r.Done }) {
+		return kit.Failf("C09/session/receiver-to-sender/barrier-not-forwarded", "the client's SETTINGS frame did not reach the server within %v", bound), true
+	}
+	sv.AckSettings()
+	time.Sleep(20 * time.Millisecond) // (sets the scene: the acknowledgement is waiting behind the stalled write)
+	s.Duplex.ResumeRelayWrites()
+	if !cl.Wait(bound, func(r *h2kit.Rec) bool { return (r.Acks >= 3 && r.DataBytes[1] >= sent) || r.Done }) {
+		v.Addf("C09/stranding/settings-ack-and-data-in-transit/data-held-despite-credit", "%d octets sent, not all arrived within %v", sent, bound)
+		slow = true
+	}
+	cl.With(func(r *h2kit.Rec) {
+		n := 0
+		first := ""
+		for _, vi := range r.Violations {
+			if vi.Kind == "frame-size" {
+				if n == 0 {
+					first = vi.Detail
+				}
+				n++
+			}
+		}
+		if n > 0 {
+			v.Addf("C09/frame-size/settings-ack-overtakes-data-in-the-output-channel/frame-size", "the client lowered SETTINGS_MAX_FRAME_SIZE to 16 384 while %d octets in 60 000-octet frames were on their way to it; %d such frames arrived AFTER the acknowledgement (first: %s)", sent, n, first)
+		}
+	})
 	return v, slow
 }
 
@@ -194,6 +282,12 @@ func TestWindowFit(t *testing.T) {
 				if !yield(FitCase{Kind: "max-frame", Reverse: rev, Size: size}) {
 					return
 				}
+			}
+			if !yield(FitCase{Kind: "max-frame-headers", Reverse: rev, Size: 40000}) {
+				return
+			}
+			if rev && !yield(FitCase{Kind: "ack-overtakes", Reverse: true, Size: 60000}) {
+				return
 			}
 		}
 	})
